@@ -113,6 +113,14 @@ structure InspPost (ver : Ver) (H : Bytes → Bytes) (T0 : Trie) (pre : Nibs) (o
   fresh : ∀ pos ∈ news, Below pre pos ∧ ¬ Needs n pre pos
   mono : ∀ pos, Needs n pre pos → Needs old pre pos
   same : ch = false → news = [] ∧ (noFresh old → noFresh n ∧ target = C06.abs T0 old pre)
+  valid : ∀ pos ∈ news, ValidPos ver H T0 pos
+
+theorem validPos_of_ref {ver : Ver} {H : Bytes → Bytes} {T0 : Trie} {fk : Nibs} {dv : DVal}
+    (hv : OkV ver H T0 fk dv) (hr : dv.isRef = true) : ValidPos ver H T0 (.val fk) := by
+  cases dv with
+  | inl x => cases hr
+  | fresh x => cases hr
+  | ref h => obtain ⟨v, h1, h2, _⟩ := hv; exact ⟨v, h1, h2⟩
 
 theorem insertLeaf_sim (ver : Ver) (H : Bytes → Bytes) (T0 : Trie) (c : Option Bytes) (pre pk : Nibs)
     (lv : DVal) (key : Nibs) (value : Bytes) (d : Death) (hv : OkV ver H T0 (pre ++ pk) lv) :
@@ -132,7 +140,7 @@ theorem insertLeaf_sim (ver : Ver) (H : Bytes → Bytes) (T0 : Trie) (c : Option
       refine ⟨if lv.isRef then [.val (pre ++ cc)] else [], ?_, ?_⟩
       · rw [replaceOldValue_spec ver H T0 d _ lv hv]; split <;> rfl
       · refine ⟨⟨okV_new ver H T0 _ value, fun h hh => by cases hh⟩, by simp [abs, absV_new], rfl,
-          rfl, ?_, ?_, ?_⟩
+          rfl, ?_, ?_, ?_, ?_⟩
         · intro pos hpos
           split at hpos
           · simp only [List.mem_singleton] at hpos
@@ -155,6 +163,13 @@ theorem insertLeaf_sim (ver : Ver) (H : Bytes → Bytes) (T0 : Trie) (c : Option
           refine ⟨by simp [h1], fun hnf => ?_⟩
           obtain ⟨h5, h6⟩ := h2 hnf
           exact ⟨h6, by simp [abs, h5]⟩
+        · intro pos hpos
+          split at hpos
+          · rename_i hr
+            simp only [List.mem_singleton] at hpos
+            subst hpos
+            exact validPos_of_ref hv hr
+          · cases hpos
     | cons j krest =>
       -- the new key extends the key of the leaf
       simp only [List.append_nil] at hv
@@ -164,7 +179,7 @@ theorem insertLeaf_sim (ver : Ver) (H : Bytes → Bytes) (T0 : Trie) (c : Option
       have hc2' : ¬ (cc.length < cc.length) := by simp
       simp only [hc1, hc1', hc2, hc2', if_false, List.drop_left', List.append_nil]
       refine ⟨[], rfl, ?_⟩
-      refine ⟨⟨?_, ?_, fun h hh => by cases hh⟩, ?_, rfl, rfl, by simp, ?_, by simp⟩
+      refine ⟨⟨?_, ?_, fun h hh => by cases hh⟩, ?_, rfl, rfl, by simp, ?_, by simp, by simp⟩
       · intro dv hdv; cases hdv; exact hv
       · exact ok_setKid (ok_noKids _) ⟨okV_new ver H T0 _ value, fun h hh => by cases hh⟩
       · simp only [abs, Option.map_some, abs_setKid, abs_noKids, absV_new]
@@ -199,7 +214,7 @@ theorem insertLeaf_sim (ver : Ver) (H : Bytes → Bytes) (T0 : Trie) (c : Option
       -- the new key ends where the keys diverge: the new branch holds the value
       simp only [List.append_nil, if_true]
       refine ⟨[], rfl, ?_⟩
-      refine ⟨⟨?_, ?_, fun h hh => by cases hh⟩, ?_, rfl, rfl, by simp, ?_, by simp⟩
+      refine ⟨⟨?_, ?_, fun h hh => by cases hh⟩, ?_, rfl, rfl, by simp, ?_, by simp, by simp⟩
       · intro dv hdv; cases hdv; exact okV_new ver H T0 _ value
       · exact ok_setKid (ok_noKids _) hmoved
       · simp only [abs, Option.map_some, abs_setKid, abs_noKids, absV_new, hfk]
@@ -215,7 +230,7 @@ theorem insertLeaf_sim (ver : Ver) (H : Bytes → Bytes) (T0 : Trie) (c : Option
       have hc3 : ¬ ((cc ++ j :: krest).length = cc.length) := by simp
       simp only [hc3, if_false, List.drop_left']
       refine ⟨[], rfl, ?_⟩
-      refine ⟨⟨?_, ?_, fun h hh => by cases hh⟩, ?_, rfl, rfl, by simp, ?_, by simp⟩
+      refine ⟨⟨?_, ?_, fun h hh => by cases hh⟩, ?_, rfl, rfl, by simp, ?_, by simp, by simp⟩
       · intro dv hdv; cases hdv
       · exact ok_setKid (ok_setKid (ok_noKids _) hmoved)
           ⟨okV_new ver H T0 _ value, fun h hh => by cases hh⟩
@@ -339,6 +354,7 @@ structure OpPost (ver : Ver) (H : Bytes → Bytes) (T0 : Trie) (pre : Nibs) (hd 
   fresh : ∀ pos ∈ news, Below pre pos ∧ ¬ Needs hd' pre pos
   mono : ∀ pos, Needs hd' pre pos → Needs hd pre pos
   same : ch = false → news = [] ∧ (noFresh hd → noFresh hd' ∧ target = C06.abs T0 hd pre)
+  valid : ∀ pos ∈ news, ValidPos ver H T0 pos
 
 /-- `inspect` after an inspector that met its postcondition -/
 theorem wrap_post {ver : Ver} {H : Bytes → Bytes} {T0 : Trie} {pre : Nibs} {stored : Hd}
@@ -351,24 +367,28 @@ theorem wrap_post {ver : Ver} {H : Bytes → Bytes} {T0 : Trie} {pre : Nibs} {st
   cases hc : stored.cached with
   | none =>
     rw [afterInspect_none hc, asNew_of_cached_none hp.cached hp.mem]
-    exact ⟨newsI, rfl, ⟨hp.ok, hp.abs, hp.mem, hp.fresh, hp.mono, hp.same⟩⟩
+    exact ⟨newsI, rfl, ⟨hp.ok, hp.abs, hp.mem, hp.fresh, hp.mono, hp.same, hp.valid⟩⟩
   | some h =>
     obtain ⟨hh, habs, hnf⟩ := ok_cached hok hc hm
     cases ch with
     | true =>
       rw [afterInspect_changed hc, asNew_of_cached_none hp.cached hp.mem]
-      refine ⟨.node pre :: newsI, ?_, ⟨hp.ok, hp.abs, hp.mem, ?_, hp.mono, by simp⟩⟩
+      refine ⟨.node pre :: newsI, ?_, ⟨hp.ok, hp.abs, hp.mem, ?_, hp.mono, by simp, ?_⟩⟩
       · simp [rowOf, hh.2.1]
       · intro pos hpos
         rcases List.mem_cons.mp hpos with rfl | hpos
         · exact ⟨List.prefix_refl _, not_needs_self hp.cached hp.mem⟩
         · exact hp.fresh pos hpos
+      · intro pos hpos
+        rcases List.mem_cons.mp hpos with rfl | hpos
+        · exact validPos_of_hashAt hh
+        · exact hp.valid pos hpos
     | false =>
       rw [afterInspect_same hc]
       obtain ⟨hnews, hsame⟩ := hp.same rfl
       obtain ⟨hnf', htar⟩ := hsame hnf
       subst hnews
-      refine ⟨[], rfl, ⟨?_, ?_, ?_, by simp, ?_, ?_⟩⟩
+      refine ⟨[], rfl, ⟨?_, ?_, ?_, by simp, ?_, ?_, by simp⟩⟩
       · exact ok_withCache hp.ok hp.mem hh (by rw [hp.abs, htar, habs]) hnf'
       · rw [abs_withCache T0 h n pre hp.mem, hp.abs]
       · have hmem := hp.mem
@@ -454,7 +474,7 @@ theorem insertNode_sim (e : Env) (T0 : Trie)
           if optIsRef bv then [.val (pre ++ cc)] else [], ?_, ?_⟩
         · rw [replaceOldValue_opt e.ver e.H T0 d _ bv hvals]
           congr 2; split <;> rfl
-        · refine ⟨⟨?_, hkids, fun h hh => by cases hh⟩, by simp [abs, absV_new], rfl, rfl, ?_, ?_, ?_⟩
+        · refine ⟨⟨?_, hkids, fun h hh => by cases hh⟩, by simp [abs, absV_new], rfl, rfl, ?_, ?_, ?_, ?_⟩
           · intro dv hdv; cases hdv; exact okV_new e.ver e.H T0 _ value
           · intro pos hpos
             split at hpos
@@ -486,6 +506,15 @@ theorem insertNode_sim (e : Env) (T0 : Trie)
               obtain ⟨h5, h6⟩ := h2 (hnfv lv rfl)
               refine ⟨⟨?_, hnfk⟩, by simp [abs, h5]⟩
               intro dv hdv; cases hdv; exact h6
+          · intro pos hpos
+            split at hpos
+            · rename_i hr
+              simp only [List.mem_singleton] at hpos
+              subst hpos
+              cases bv with
+              | none => cases hr
+              | some lv => exact validPos_of_ref (hvals lv rfl) hr
+            · cases hpos
       | cons idx krest =>
         -- the key leads into child `idx`
         have hc1 : ¬ (cc.length = cc.length ∧ cc.length = (cc ++ idx :: krest).length) := by simp
@@ -498,7 +527,7 @@ theorem insertNode_sim (e : Env) (T0 : Trie)
           simp only [hnil, if_true]
           refine ⟨true, _, [], rfl, ?_⟩
           refine ⟨⟨hvals, ok_setKid hkids ⟨okV_new e.ver e.H T0 _ value, fun h hh => by cases hh⟩,
-            fun h hh => by cases hh⟩, ?_, rfl, rfl, by simp, ?_, by simp⟩
+            fun h hh => by cases hh⟩, ?_, rfl, rfl, by simp, ?_, by simp, by simp⟩
           · simp only [abs, abs_setKid, absV_new, hc, tInsert]
           · intro pos hn
             simp only [Needs] at hn ⊢
@@ -517,7 +546,8 @@ theorem insertNode_sim (e : Env) (T0 : Trie)
             (by simp; omega) (hkids idx) hnil'
           simp only [hnil', Bool.false_eq_true, if_false, hrc]
           refine ⟨ch, _, newsC, rfl, ?_⟩
-          refine ⟨⟨hvals, ok_setKid hkids hpc.ok, fun h hh => by cases hh⟩, ?_, rfl, rfl, ?_, ?_, ?_⟩
+          refine ⟨⟨hvals, ok_setKid hkids hpc.ok, fun h hh => by cases hh⟩, ?_, rfl, rfl, ?_, ?_, ?_,
+            hpc.valid⟩
           · simp only [abs, abs_setKid, hpc.abs]
           · intro pos hpos
             obtain ⟨hb, hnn⟩ := hpc.fresh pos hpos
@@ -578,7 +608,7 @@ theorem insertNode_sim (e : Env) (T0 : Trie)
         simp only [List.append_nil, if_true]
         refine ⟨true, _, [], rfl, ?_⟩
         refine ⟨⟨?_, ok_setKid (ok_noKids _) hlower, fun h hh => by cases hh⟩, ?_, rfl, rfl, by simp,
-          ?_, by simp⟩
+          ?_, by simp, by simp⟩
         · intro dv hdv; cases hdv; exact okV_new e.ver e.H T0 _ value
         · simp only [abs, Option.map_some, abs_setKid, abs_noKids, absV_new, hp3]
         · intro pos hn
@@ -595,7 +625,7 @@ theorem insertNode_sim (e : Env) (T0 : Trie)
         refine ⟨true, _, [], rfl, ?_⟩
         refine ⟨⟨?_, ok_setKid (ok_setKid (ok_noKids _) hlower)
             ⟨okV_new e.ver e.H T0 _ value, fun h hh => by cases hh⟩, fun h hh => by cases hh⟩,
-          ?_, rfl, rfl, by simp, ?_, by simp⟩
+          ?_, rfl, rfl, by simp, ?_, by simp, by simp⟩
         · intro dv hdv; cases hdv
         · simp only [abs, Option.map_none, abs_setKid, abs_noKids, absV_new, hp3]
         · intro pos hn
@@ -657,6 +687,6 @@ theorem insertAt_sim (e : Env) (T0 : Trie) (hdb : DbOk e T0) (value : Bytes) :
       obtain ⟨h1, h2⟩ := hp.same hch
       exact ⟨h1, fun hh => by
         obtain ⟨h3, h4⟩ := h2 (hnf hh)
-        exact ⟨h3, by rw [h4, habs]⟩⟩⟩
+        exact ⟨h3, by rw [h4, habs]⟩⟩, hp.valid⟩
 
 end Gossamer.C06
